@@ -1,5 +1,6 @@
 """C07 — per request: one handler call, one correct EndRequest, correct connection reuse (R7.1–R7.4)."""
 import events as E
+import facts as F
 import ir
 import ieg
 from . import common
@@ -97,7 +98,9 @@ def run(rep, facts):
             if p0 is None:
                 rep.violation("R7.1", "run/handler-argument", "handler is not called with the Request built by Request::new", n.loc())
             else:
-                if not any(x[0] == 'call' and PARSE_REQUEST_HINT in x[1] for x in ir.walk(p0)) and not any(
+                if not any((x[0] == 'call' and PARSE_REQUEST_HINT in x[1]) or
+                           (x[0] == 'agg' and x[1] in ('coroutine', 'closure') and ("Token::" + PARSE_REQUEST_HINT) in F.norm(str(x[2])))
+                           for x in ir.walk(p0)) and not any(
                         x[0] == 'call' and x[1] == E.INTO_STREAM for x in ir.walk(p0)):
                     rep.violation("R7.1", "run/request-parser-provenance",
                                   "Request::new is not given the stream parser produced by the preamble phase", n.loc())
